@@ -508,6 +508,17 @@ func execContext(ops []string, mon *Mon) []string {
 			c2, _ := wtfctx.NewAnalyzer().AnalyzeDirectory(root)
 			v1, v2 := viewOf(c1), viewOf(c2)
 			monitorContext(mon, root, order, v1, v2)
+			// the boosts of ONE analysis, asked for repeatedly: where several project types boost the same word
+			// with different factors the merged value must not depend on the call (Go re-randomises map order)
+			if len(v1.types) > 1 {
+				mon.Tag("context-several-types")
+				for k := 0; k < 12; k++ {
+					if !sameView(v1, viewOf(c1)) {
+						mon.Hit("C13", "context-not-deterministic", map[string]interface{}{"entries": order, "types": v1.types, "what": "GetContextBoosts of the same analysis returned different boosts on call " + Itoa(k+2)})
+						break
+					}
+				}
+			}
 			os.RemoveAll(root)
 			out = append(out, v1.line(order))
 			pkgContent = ""
